@@ -32,19 +32,25 @@ def worker_init():
 
 
 def yaws(seed):
+    """24 multiples of pi/12 shifted by the seed's offset, plus the exact cardinal headings (0, +-pi/2, pi) where quaternion
+    components vanish."""
     off = OFFSETS[seed % len(OFFSETS)]
-    return [geom.wrap(k * math.pi / 12 + off) for k in range(-11, 13)]
+    ys = [geom.wrap(k * math.pi / 12 + off) for k in range(-11, 13)]
+    for c in (0.0, math.pi / 2, -math.pi / 2, math.pi):
+        if all(abs(c - y) > 1e-12 for y in ys):
+            ys.append(c)
+    return ys
 
 
 def units(tier, seed):
     egos = G.ego_menu(seed)
     frames = [("base_link", egos[0])] + [("map", e) for e in egos]
     rps = [(0.0, 0.0), (0.02, -0.02)] if tier == "quick" else [(0.0, 0.0), (0.02, -0.02), (0.0, 0.03), (-0.05, 0.0)]
-    return [dict(frame=f, ego=list(e), rp=list(rp), ye=k) for f, e in frames for rp in rps for k in range(24)]
+    return [dict(frame=f, ego=list(e), rp=list(rp), ye=k) for f, e in frames for rp in rps for k in range(len(yaws(seed)))]
 
 
 def bounds(tier, seed):
-    return {"yaws": 24, "offset": OFFSETS[seed % len(OFFSETS)], "quaternion_signs": 4, "frames": "ego + 4 map renderings",
+    return {"yaws": len(yaws(seed)), "offset": OFFSETS[seed % len(OFFSETS)], "quaternion_signs": 4, "frames": "ego + 4 map renderings",
             "roll_pitch": 2 if tier == "quick" else 4}
 
 
@@ -106,3 +112,13 @@ def check_case(case, acc):
     acc.exec()
     if len(a.tp_list) != 1 or abs(a.tp_list[0] - want_w) > TW:
         bad("ap-tp-list:" + fk, "Ap(TPMetricsAph).tp_list=%s, expected [%.9f]" % (a.tp_list, want_w))
+    # two frames of one track: in the second frame the same ground truth (same uuid) and its estimate have both turned by 90 degrees,
+    # so the heading weight of the pair is unchanged; one Ap (one TPMetricsAph instance) scores both frames
+    if r == 0.0 and p == 0.0:
+        e2 = G.mk3d(dict(x=5.0, y=1.0, yaw=ye + math.pi / 2, qneg=case["neg_e"], label="CAR", uuid="e", score=0.8), fr, ego)
+        g2 = G.mk3d(dict(x=5.2, y=1.1, yaw=yg + math.pi / 2, qneg=case["neg_g"], label="CAR", uuid="g"), fr, ego)
+        res2 = DynamicObjectWithPerceptionResult(e2, g2, transforms=tf)
+        a2 = Ap(TPMetricsAph(), [[res], [res2]], 2, [AutowareLabel.CAR], MatchingMode.CENTERDISTANCE, [1.0])
+        acc.exec()
+        if len(a2.tp_list) != 2 or abs(a2.tp_list[0] - want_w) > TW or abs(a2.tp_list[1] - 2 * want_w) > 2 * TW:
+            bad("ap-tp-list:two-frames:" + fk, "Ap(TPMetricsAph) over two frames of a turning track: tp_list=%s, expected [%.9f, %.9f]" % (a2.tp_list, want_w, 2 * want_w))
